@@ -16,12 +16,14 @@ from vlib import gen, observe, pdbio, common, refs, pkaparse
 from props import c09
 
 PROPERTY = "C10"
-REDUCE_KEYS = ["pdb"]
+REDUCE_KEYS = ["pdb"]      # (cases of the several-molecules stage are saved unreduced)
 LEVEL = "exploration"
 RULE = ("generated structures with shifted pKa values x user grids -g min max step (steps 0.1-2 incl. decimal steps "
         "that do not accumulate exactly such as 0.7 and 0.3, negative minima, maxima above 14) x windows -w (inside, "
         "equal to, larger than the grid; steps 0.5, 1, 2, 3) x both reference states x parameter files with shifted "
-        "model pKa values (run in one process after each other). Non-trivial: predicted != model pKa for >= 1 acid "
+        "model pKa values (run in one process after each other); histories in which 1-3 molecules (incl. multi-"
+        "conformation inputs) are calculated before any profile or file is requested, then every conformation is "
+        "queried twice and written with propka.output.write_pka(conformation=...). Non-trivial: predicted != model pKa for >= 1 acid "
         "and >= 1 base and the grid is not the default; distinct by hash of (input, grid, window, parameter variant).")
 ASSUMPTIONS = [
     "Simpson consistency is asserted for steps <= 0.25 with tolerance 1.36 * n_groups * 30 * (2h)^5 / 2880 + 1e-6",
@@ -186,7 +188,73 @@ def check_case(case):
     return v, {"labels": labels, "nontrivial": acids and bases and not default}
 
 
+def several_case(case):
+    """Several molecules calculated first, profiles and files requested afterwards; one file per conformation.
+
+    Every profile must be the closed form of the pKa values of the molecule *and conformation* it is requested for; in
+    a written file the folding rows and the charge rows must belong to the conformation that is written."""
+    import propka.output
+    recs = []
+    for i, text in enumerate(case["pdbs"]):
+        rec = observe.run(text, [], name="m%d" % i, keep_mol=True, write_pka=False)
+        if rec["error"]:
+            return [], {"labels": ["error:" + rec["error"]["type"]]}
+        recs.append(rec)
+    v = []
+    grid = tuple(case["grid"])
+    differ = False
+    for rnd in range(2):                       # second round: repeated requests
+        for i, rec in enumerate(recs):
+            mol = rec["_mol"]
+            for cname in rec["conf_names"] + ["AVR"]:
+                groups = rec["confs"][cname]["groups"]
+                for reference in ("neutral", "low-pH"):
+                    prof = mol.get_folding_profile(conformation=cname, reference=reference, grid=grid)[0]
+                    for ph, dg in prof:
+                        ref = dg_ref(groups, ph, reference)
+                        if abs(dg - ref) > 1e-9:
+                            v.append({"clause": "linkage/closed-form", "detail": "molecule %d of %d, conformation %s, "
+                                      "%s reference, request round %d, pH %r: dG %r, closed form of its own pKa values "
+                                      "%r" % (i + 1, len(recs), cname, reference, rnd + 1, ph, dg, ref)})
+                            break
+                if rnd:
+                    continue
+                fn = "several_%d_%s.pka" % (i, cname)
+                try:
+                    propka.output.write_pka(mol, mol.version.parameters, filename=fn, conformation=cname, verbose=False)
+                except Exception as e:
+                    v.append({"clause": "write-conformation", "detail": "%s: %s: %s" % (cname, type(e).__name__, e)})
+                    continue
+                parsed = pkaparse.parse(open(fn).read())
+                os.remove(fn)
+                sites = c09.sites_of(rec["confs"][cname])
+                if sites != c09.sites_of(rec["confs"]["AVR"]):
+                    differ = True
+                for ph, qu, qf in parsed["charge"]:
+                    ph = float(ph)
+                    wu, wf = c09.q_ref(sites, ph, False), c09.q_ref(sites, ph, True)
+                    if not (pkaparse.is_rounding_of(qu, wu, 2) and pkaparse.is_rounding_of(qf, wf, 2)):
+                        v.append({"clause": "printed/charge-of-written-conformation", "detail": "file for conformation "
+                                  "%s of molecule %d, pH %r: printed (%r, %r), sums over its groups (%r, %r)" % (
+                                      cname, i + 1, ph, qu, qf, wu, wf)})
+                        break
+                for ph, dg in parsed["folding"]:
+                    ph = float(ph)
+                    ref = dg_ref(groups, ph, "neutral")
+                    if not pkaparse.is_rounding_of(dg, ref, 2):
+                        v.append({"clause": "printed/folding-of-written-conformation", "detail": "file for conformation "
+                                  "%s of molecule %d, pH %r: printed %r, closed form %r" % (cname, i + 1, ph, dg, ref)})
+                        break
+        if v:
+            break
+    for rec in recs:
+        rec.pop("_mol", None)
+    return v[:6], {"labels": ["several-molecules:%d" % len(recs)], "nontrivial": len(recs) > 1 or differ}
+
+
 def replay(case):
+    if case.get("kind") == "several":
+        return several_case(case)[0]
     return check_case(case)[0]
 
 
@@ -216,6 +284,33 @@ def run_shard(ctx):
         ctx.account(case, v, info)
 
     ctx.hypothesis_stage("grids-and-linkage", cases(), body, 5000 if quick else 60000)
+
+    from vlib import genconf
+
+    @st.composite
+    def several(draw):
+        out, summ = [], []
+        for _ in range(draw(st.integers(1, 3))):
+            if draw(st.booleans()):
+                text, info = draw(genconf.multi_conformation(max_res=12, kinds=("models", "altloc")))
+                out.append(text)
+                summ.append({"structure": info["structure"].summary(), "conformations": info["labels"]})
+            else:
+                s = draw(gen.structures(max_res=16))
+                out.append(s.text)
+                summ.append(s.summary())
+        grid = draw(st.sampled_from([(0.0, 14.0, 1.0), (0.0, 14.0, 0.5), (2.0, 9.0, 0.7)]))
+        return out, summ, grid
+
+    def several_body(t):
+        pdbs, summ, grid = t
+        case = {"kind": "several", "pdbs": pdbs, "grid": list(grid)}
+        v, info = several_case(case)
+        info["sample"] = {"molecules": summ, "grid": grid,
+                          "history": "all calculated first; then profiles (twice) and one file per conformation"}
+        ctx.account(case, v, info)
+
+    ctx.hypothesis_stage("several-molecules-and-conformation-files", several(), several_body, 500 if quick else 6000)
 
     # regression witnesses of the fixed findings F2 / F3 on a corpus file
     if ctx.shard == 0:
